@@ -117,6 +117,16 @@ type Creds struct {
 	Lookup   bool // PrivilegeLevelLookup (name + privilege)
 	Suite    ref.Suite
 	Seed     uint64
+	// DefaultSuites leaves the cipher-suite list of the options empty (the library
+	// then discovers what the BMC advertises and picks from its defaults 17, 3);
+	// only meaningful when Suite is one of those two.
+	DefaultSuites bool
+}
+
+// IsLibraryDefault reports whether the suite is one of the library's defaults
+// (cipher suites 17 and 3).
+func IsLibraryDefault(s ref.Suite) bool {
+	return s == ref.Suite{Auth: ref.AuthSHA256, Integ: ref.IntegSHA256128, Conf: ref.ConfAES} || s == ref.Suite{Auth: ref.AuthSHA1, Integ: ref.IntegSHA1_96, Conf: ref.ConfAES}
 }
 
 // GenUsername draws an ASCII (1..127) username of 0..16 bytes.
@@ -160,6 +170,14 @@ func GenCreds(suites []ref.Suite) *rapid.Generator[Creds] {
 
 // Opts converts credentials to the library's session options.
 func (c Creds) Opts() *bmc.V2SessionOpts {
+	o := c.opts()
+	if c.DefaultSuites && IsLibraryDefault(c.Suite) {
+		o.CipherSuites = nil
+	}
+	return o
+}
+
+func (c Creds) opts() *bmc.V2SessionOpts {
 	return &bmc.V2SessionOpts{
 		SessionOpts: bmc.SessionOpts{
 			Username:          c.User,
@@ -176,6 +194,10 @@ func (c Creds) Opts() *bmc.V2SessionOpts {
 func (c Creds) Install(b *simbmc.BMC) {
 	b.Users[c.User] = c.Password
 	b.KG = c.KG
+	if c.DefaultSuites && IsLibraryDefault(c.Suite) {
+		// the BMC advertises exactly the suite to be negotiated
+		b.SuiteRecords = (&ref.SuiteRecord{ID: 3, Auth: c.Suite.Auth, Integs: []byte{c.Suite.Integ}, Confs: []byte{c.Suite.Conf}}).Bytes()
+	}
 }
 
 // NewWorldFor builds a world whose BMC knows the credentials.
